@@ -155,15 +155,16 @@ class ControllerCommandHandler:
         * If the thread is paused: the function will block until the thread is resumed or shutdown.
         """
         paused = False
-        if self._controller.is_pause():
-            # In this implementation, `self._on_pause()` is invoked almost immediately when a pause occurs.
-            # Because the `ControllerCommandHandler` primarily runs `manage_loop()`,
-            # the `stop_if_pause()` method is frequently executed.
-            self.on_paused()
-            paused = True
-
-        while not self._controller.wait_for_resume(1.0):
-            pass
+        # The thread never blocks before it has acknowledged the pause: a pause
+        # request that arrives after the check above is seen by the next check.
+        while self._controller.is_pause():
+            if not paused:
+                # In this implementation, `self._on_pause()` is invoked almost immediately when a pause occurs.
+                # Because the `ControllerCommandHandler` primarily runs `manage_loop()`,
+                # the `stop_if_pause()` method is frequently executed.
+                self.on_paused()
+                paused = True
+            self._controller.wait_for_resume(1.0)
 
         if paused:
             self.on_resumed()
